@@ -1,4 +1,5 @@
 """C20 — time integration: exact stencils, start value, per-step closed form, jitter fallback."""
+import os
 from fractions import Fraction
 from pyvc.api import *
 from pyvc.loops import LoopContract
@@ -143,9 +144,9 @@ def _inv(order, n):
         ("start", lambda ns: eq(out(ns)[0], ns.start_value)),
         ("step", lambda ns: forall(1, ns.ii, lambda k: Or(
             step_is_trap(out(ns), ns.time, ns.signal, k),
-            And(k >= W - n + 1, k + n - 1 < ns.nt, step_is_prim(out(ns), ns.time, ns.signal, k, order, n),
+            And(k >= W + 1, k + n - 1 < ns.nt, step_is_prim(out(ns), ns.time, ns.signal, k, order, n),
                 window_regular(ns.time, k, order, n, ns.nt))), "k")),
-        ("lowmode", lambda ns: forall(1, ns.ii, lambda k: implies(Or(jitter(ns.time, k, n, ns.nt), tail(k, n, ns.nt)),
+        ("lowmode", lambda ns: forall(1, ns.ii, lambda k: implies(Or(jitter(ns.time, k, n, ns.nt), tail(k, n, ns.nt), k <= W),
                                                                    step_is_trap(out(ns), ns.time, ns.signal, k)), "k")),
         ("prev_dt", lambda ns: eq(ns.prev_dt, prev_dt_of(ns.time, ns.ii))),
         ("count", lambda ns: And(ns.number_of_constant_time_steps >= 0, ns.number_of_constant_time_steps <= ns.ii - 1,
@@ -164,23 +165,35 @@ def _integrate_params(order, n):
     return p
 
 
-INTEGRATE_INST = [(4, 1), (2, 1), (3, 1), (4, 2)]
+# Instance set by tier: the invariant below is generic in (order, n); every one of the 36 pairs with 1 <= n <= order <= 8 verifies
+# (8270 obligations, about 4 min on a quiet 16-core machine), which is too slow for the quick tier.  The quick tier takes the
+# default (4,1), the lowest order (1,1: the primary stencil is the implicit rectangle rule and is reached after ONE regular step),
+# fully implicit layouts n = order (no past sample: (2,2), (3,3), (4,4), (8,8)), one implicit point (2,1), (3,1)
+# and mixed layouts (4,2), (6,3); the thorough tier takes all 36.
+TIERED = True
+_TIER = os.environ.get("VERIF_TIER", "quick")
+QUICK_INST = [(4, 1), (2, 1), (3, 1), (4, 2), (1, 1), (2, 2), (3, 3), (4, 4), (6, 3), (8, 8)]
+INTEGRATE_INST = QUICK_INST + [p for p in PAIRS if p not in QUICK_INST] if _TIER == "thorough" else list(QUICK_INST)
+if os.environ.get("C20_ONLY"):      # debugging: C20_ONLY="8,8 4,1"
+    INTEGRATE_INST = [p for p in PAIRS if f"{p[0]},{p[1]}" in os.environ["C20_ONLY"].split()]
 
 
 def _post_step(a, r):
     nt = a.signal.n if hasattr(a.signal, "n") else len(a.signal)
     if not is_symbolic(nt):
         return all(step_is_trap(r, a.time, a.signal, k) or
-                   (k >= a.order - a.n + 1 and k + a.n - 1 < nt and step_is_prim(r, a.time, a.signal, k, a.order, a.n)
+                   (k >= a.order + 1 and k + a.n - 1 < nt and step_is_prim(r, a.time, a.signal, k, a.order, a.n)
                     and window_regular(a.time, k, a.order, a.n, nt)) for k in range(1, nt))
     return forall(1, nt, lambda k: Or(step_is_trap(r, a.time, a.signal, k),
-                                     And(k >= a.order - a.n + 1, k + a.n - 1 < nt, step_is_prim(r, a.time, a.signal, k, a.order, a.n),
+                                     And(k >= a.order + 1, k + a.n - 1 < nt, step_is_prim(r, a.time, a.signal, k, a.order, a.n),
                                          window_regular(a.time, k, a.order, a.n, nt))), "k")
 
 
 def _post_trapezoid(a, r):
     nt = a.signal.n if hasattr(a.signal, "n") else len(a.signal)
-    return forall(1, nt, lambda k: implies(Or(jitter(a.time, k, a.n, nt), tail(k, a.n, nt)), step_is_trap(r, a.time, a.signal, k)), "k")
+    # "near the ends": the last n - 1 steps (the stencil would reach past the last sample) and the first `order` steps (the
+    # higher-order stencil is only switched on after `order` regular steps, also for fully implicit layouts that need no past sample)
+    return forall(1, nt, lambda k: implies(Or(jitter(a.time, k, a.n, nt), tail(k, a.n, nt), k <= a.order), step_is_trap(r, a.time, a.signal, k)), "k")
 
 
 def _wit_integrate():
@@ -210,7 +223,7 @@ integrate = Contract(
     ],
     loops={1: None},  # filled below per instance
     witness=_wit_integrate(),
-    options={"check_bounds": True},
+    options={"check_bounds": True, "feasibility": "abstract"},
 )
 # the loop contract depends on (order, n): resolved per instance through a small indirection
 integrate.loops = {1: LoopContract(invariant=None)}
@@ -229,24 +242,30 @@ def _lemma_cubic():
     return [], lhs == P(t0) - P(t0 - h)
 
 
-def _lemma_linear():
+def _lemma_linear(width=4):
     import z3
     import pyvc.terms as T
     a, b, d = z3.Reals("a b d")
-    s1 = [z3.Real(f"s1_{j}") for j in range(4)]
-    s2 = [z3.Real(f"s2_{j}") for j in range(4)]
+    s1 = [z3.Real(f"s1_{j}") for j in range(width)]
+    s2 = [z3.Real(f"s2_{j}") for j in range(width)]
     o1, o2 = z3.Reals("o1 o2")
-    w = [z3.Real(f"w_{j}") for j in range(4)]     # any weights that do not depend on the signal
-    step = lambda o, s: o + d * sum((w[j] * s[j] for j in range(4)), z3.RealVal(0))
-    s3 = [a * s1[j] + b * s2[j] for j in range(4)]
+    w = [z3.Real(f"w_{j}") for j in range(width)]     # any weights that do not depend on the signal
+    step = lambda o, s: o + d * sum((w[j] * s[j] for j in range(width)), z3.RealVal(0))
+    s3 = [a * s1[j] + b * s2[j] for j in range(width)]
     return [], step(a * o1 + b * o2, s3) == a * step(o1, s1) + b * step(o2, s2)
 
 
 LEMMAS = [Lemma("cubic_exact_order4", _lemma_cubic, "one primary step on 4 equally spaced samples of a cubic adds its exact integral"),
-          Lemma("step_linear", _lemma_linear, "a step with signal-independent weights is linear in (signal, previous value)")]
+          Lemma("step_linear", _lemma_linear, "a step with signal-independent weights is linear in (signal, previous value)")] + \
+         [Lemma(f"step_linear_width{w}", (lambda w=w: _lemma_linear(w)), f"the same for a stencil of {w} samples") for w in (1, 2, 3, 5, 6, 7, 8)]
 
 CONTRACTS = [integration_stencil, integrate]
 TRUSTED = ["numba compiles the source faithfully (the witnesses call the compiled functions)",
            "np.empty_like returns an array of the same shape with unspecified cells; np.array / np.zeros literals"]
 EXPLANATION = ("stencil table: all 36 (order,n) pairs executed on the real source in exact rational arithmetic (finite table, exhaustive); "
-               "integrate: inductive invariant over all lengths, time grids and signals for (order,n) in {(4,1),(2,1),(3,1),(4,2)}")
+               "integrate: inductive invariant (start value, closed form per step, trapezoid on jitter / on the last n-1 steps / on the first `order` steps, "
+               "jitter-free window of `order` steps behind every higher-order step, index safety at both ends, restart after a jitter) over all lengths, "
+               "time grids and signals; quick tier: 10 (order,n) pairs incl. order 1, the fully implicit layouts n = order in {1,2,3,4,8}, n = 1 for "
+               "orders 1-4, mixed (4,2),(6,3); thorough tier: all 36 pairs with 1 <= n <= order <= 8 (8270 obligations). "
+               "`integrate` has no other caller in the repository (complex_response / integrated_response_factor_spectral_tail only use the stencil table; "
+               "cumulative_distance is a different recurrence outside the statement)")
